@@ -93,6 +93,7 @@ type interpreter struct {
 	lenient            bool // executing a package initialiser leniently
 	nativeMemo         map[nativeKey]*value
 	anonByPos  map[string]*ssa.Function
+	curFn      *ssa.Function // function of the binary operation being evaluated (diagnostics)
 	importing          bool
 	registry           map[*value]bool // cells of natively imported shared definitions
 	typeMemo           map[reflect.Type]types.Type
@@ -216,6 +217,7 @@ func visitInstr(fr *frame, instr ssa.Instruction) continuation {
 		}
 
 	case *ssa.BinOp:
+		fr.i.curFn = fr.fn
 		fr.env[instr] = fr.i.binopAny(instr.Op, instr.X.Type(), fr.get(instr.X), fr.get(instr.Y))
 
 	case *ssa.Call:
